@@ -46,7 +46,8 @@ def interference(I, node, fr):
 def loop_contract():
     return LoopContract(
         FLUSH_Q, 0,
-        invariant=[H("C09/unprocessed-entries-still-buffered", "forall(lambda q: implies(old(q in SM) and q in loop_dict and not (q in done), q in SM), 'key3')")],
+        invariant=[P("C09/destination-stays-asleep-during-release", "n in gateway.nodes and gateway.nodes[n].sleeping"),
+                   H("C09/unprocessed-entries-still-buffered", "forall(lambda q: implies(old(q in SM) and q in loop_dict and not (q in done), q in SM), 'key3')")],
         step=[P("C09/no-unwritten-entry-removed",
                 "forall(lambda q: implies(at_interference(q in SM) and not (q in SM), "
                 "wcnt(at_interference(SM[q])) == at_interference(wcnt(SM[q])) + 1), 'key3')"),
@@ -59,7 +60,8 @@ def flush_contract():
         FLUSH_Q, params={"cls": "cls", "gateway": GW, "message": MSG, "message_buffer": BUFT},
         requires=[H("wf/buffer-is-gateways", "message_buffer is gateway._message_buffer"),
                   H("wf/schema-follows-protocol", "gateway._message_schema.ctx_protocol == gateway._protocol"),
-                  H("wf/buffer-dicts-distinct", "not (message_buffer.internal_messages is message_buffer.set_messages)")],
+                  H("wf/buffer-dicts-distinct", "not (message_buffer.internal_messages is message_buffer.set_messages)"),
+                  H("C09/destination-asleep-during-release", "message.node_id in gateway.nodes and gateway.nodes[message.node_id].sleeping")],
         pre_lets={"n": "message.node_id", "SM": "message_buffer.set_messages"},
         returns="message", modifies=["message_buffer.set_messages[...]"] + GHOST_LOG + ["ghost.wcnt"],
         ensures=[H("C09/returns-the-message", "result is message")],
